@@ -386,11 +386,10 @@ func (x *world) run(t *testing.T, r *vh.Run, kind string, failKey string, tagsEx
 		seen := map[string]bool{}
 		for _, e := range evs {
 			if e.Kind != "Rel" && strings.HasPrefix(e.Key, "clock_") {
+				// every attempt counts: on etcd a repeated id is attempted again when the first attempt failed
 				id := strings.TrimPrefix(e.Key, "clock_")
-				if !seen[id] {
-					seen[id] = true
-					order = append(order, id)
-				}
+				seen[id] = true
+				order = append(order, id)
 			}
 		}
 		if desc["listed"] == true {
